@@ -655,6 +655,11 @@ fn main() {
             if !f.is_empty() && !plain {
                 for x in f.iter_mut() { x.data["variant"] = json!(format!("{:?}/{:?}", r.order, r.fills)); }
             }
+            // a deviation that only the lower-cased text shows is a matter of ticker / keyword case: C09 and C13 as well
+            if r.lower {
+                let extra: Vec<Finding> = f.iter().filter(|x| x.prop == "C06" || x.prop == "C01").flat_map(|x| ["C09", "C13"].into_iter().map(move |p| { let mut y = x.clone(); y.prop = p.into(); y })).collect();
+                f.extend(extra);
+            }
             findings.extend(f);
             if findings.len() > 50 { break; }
         }
